@@ -275,6 +275,19 @@ def run_history(EoReader, data, ops, info=None):
     parents = [None]
     for i, (idx, name, a, b) in enumerate(ops):
         t = idx % len(model)
+        if name == "drop":
+            # the caller lets go of one reader (its last reference): the others carry on undisturbed
+            if len(model) > 1:
+                model.pop(t)
+                parents.pop(t)
+                for s, pool in enumerate(pools):
+                    pool.pop(t)
+                    for j in range(len(model)):
+                        guarded(s, _check_reader, case, f"step {i}: reader {t} dropped: state of reader {j}", pool[j], model[j])
+                        guarded(s, _check_content, case, f"step {i}: reader {t} dropped: reader {j}", pool[j], model[j])
+                if info is not None:
+                    info["dropped"] = info.get("dropped", 0) + 1
+            continue
         m = model[t]
         rem0 = m.remaining
         try:
@@ -383,11 +396,19 @@ def explore(EoReader, data, maxd, ctx):
                     _escalate(EoReader, data, path, "slice did not return a reader")
                 want = exp.data
                 k = len(want) + 4
-                if ga.slice(0).get_bytes(k) != want or gb.slice(0).get_bytes(k) != want:
+                try:
+                    same = ga.slice(0).get_bytes(k) == want and gb.slice(0).get_bytes(k) == want
+                except Exception as e:  # noqa: BLE001 - raised by the code under test
+                    _escalate(EoReader, data, path, f"reading the new reader raised {type(e).__name__}")
+                if not same:
                     _escalate(EoReader, data, path, "slice content differs")
                 ln = len(want)
-                if (ga.position, ga.remaining, ga.chunked_reading_mode) != (0, ln, False) or \
-                        (gb.position, gb.remaining, gb.chunked_reading_mode) != (0, ln, False):
+                try:
+                    st_ok = (ga.position, ga.remaining, ga.chunked_reading_mode) == (0, ln, False) and \
+                        (gb.position, gb.remaining, gb.chunked_reading_mode) == (0, ln, False)
+                except Exception as e:  # noqa: BLE001
+                    _escalate(EoReader, data, path, f"state query raised {type(e).__name__}")
+                if not st_ok:
                     _escalate(EoReader, data, path, "state of the new reader differs")
             elif ga != exp or gb != exp:
                 _escalate(EoReader, data, path, f"returned {_show(ga)} / {_show(gb)}, model {_show(exp)}")
@@ -399,8 +420,12 @@ def explore(EoReader, data, maxd, ctx):
                 p, r, c = mm.pos, mm.remaining, mm.chunked
                 if not (0 <= p <= len(mm.data) and r >= 0):
                     raise AssertionError(f"harness: model left its data: {data.hex()} {path}")
-                if xa.position != p or xa.remaining != r or xa.chunked_reading_mode != c or \
-                        xb.position != p or xb.remaining != r or xb.chunked_reading_mode != c:
+                try:
+                    differs = xa.position != p or xa.remaining != r or xa.chunked_reading_mode != c or \
+                        xb.position != p or xb.remaining != r or xb.chunked_reading_mode != c
+                except Exception as e:  # noqa: BLE001 - raised by the code under test
+                    _escalate(EoReader, data, path, f"state query of reader {j} raised {type(e).__name__}")
+                if differs:
                     _escalate(EoReader, data, path, f"state of reader {j} differs")
             f = _flags_after(flags, name, size, exp, m, rem0)
             depth_nodes[depth] += 1
@@ -435,7 +460,7 @@ def explore(EoReader, data, maxd, ctx):
 # one weighted table and interpreted per kind. The recorded case holds the decoded ops, so replay
 # does not depend on this encoding.
 KINDS = NOARG[:5] * 3 + NOARG[5:] * 2 + ("get_bytes",) * 2 + FIXED * 2 + ("mode_on",) * 6 + ("mode_off",) + \
-    ("next_chunk",) * 4 + ("slice",) * 4
+    ("next_chunk",) * 4 + ("slice",) * 4 + ("drop", "drop")
 ARGS = (None, None, -1, -3, 0, 0, 1, 1, 2, 2, 3, 3, 4, 4, 5, 6, 7, 8, 10, 13, 16, 20, 32, 63, 64, 65, 70)
 SPECIAL_BYTES = (0x00, 0x01, 0xFD, 0xFE, 0x81, 0x41, 0x7E, 0x22)
 
@@ -591,7 +616,7 @@ def run_task(task):
                     "    except Violation as v:\n"
                     "        out = v.to_json(); break\n"
                     "print(json.dumps({'n': n, 'violation': out}))\n") % VERIF
-            for flag in ("-O", "-OO"):
+            for flag in ("-O", "-OO", "-Werror"):
                 r = subprocess.run([sys.executable, "-B", flag, "-c", code], capture_output=True, text=True,
                                    env=dict(os.environ, VERIF_REPO=REPO, PYTHONHASHSEED="0"))
                 if r.returncode != 0:
@@ -656,6 +681,8 @@ def run_task(task):
                 res.labels["hyp:expected_exceptions"] += info["exceptions"]
                 if info["pool"] >= 3:
                     res.labels["hyp:pool>=3"] += 1
+                if info.get("dropped"):
+                    res.labels["hyp:reader_dropped_while_others_live"] += 1
                 if info["slice_of_slice"]:
                     res.labels["hyp:with_slice_of_slice"] += 1
                 if 0xFF in data:
